@@ -24,6 +24,7 @@ const (
 	capLower    = 6 // [a-z]+     1..2 lower-case letters
 	capDate8    = 7 // \d{8}      eight digits
 	capSyslog15 = 8 // \w{3} [ \d]\d \d\d:\d\d:\d\d   fifteen bytes of that class
+	capZoned21  = 9 // the same followed by " [+-]\d{4}": a stamp carrying its own zone
 )
 
 func isDigit(b byte) bool { return vAnd(b >= '0', b <= '9') }
@@ -81,6 +82,19 @@ func vmCapture(cls int, tag string) string {
 		b := make([]byte, 8)
 		for i := range b {
 			b[i] = nondetByte(tag)
+			vAssume(isDigit(b[i]))
+		}
+		return string(b)
+	case capZoned21:
+		b := make([]byte, 21)
+		for i := range b {
+			b[i] = nondetByte(tag)
+		}
+		vAssume(vAnd(isWord(b[0]), vAnd(isWord(b[1]), isWord(b[2]))))
+		vAssume(vAnd(b[3] == ' ', vAnd(b[6] == ' ', vAnd(b[9] == ':', vAnd(b[12] == ':', b[15] == ' ')))))
+		vAssume(vOr(b[4] == ' ', isDigit(b[4])))
+		vAssume(vOr(b[16] == '+', b[16] == '-'))
+		for _, i := range []int{5, 7, 8, 10, 11, 13, 14, 17, 18, 19, 20} {
 			vAssume(isDigit(b[i]))
 		}
 		return string(b)
